@@ -68,6 +68,7 @@ def parseUnit (tables : List W.TableDef) (s : String) : W.Unit :=
   | ["ust", st] => .unknownStmt (parseStmt st)
   | ["ar", rc] => .autoRows (parseRowsChange tables rc)
   | ["rot", f] => .rotate (hb f)
+  | ["rst", f] => .restart (hb f)
   | ["gt", sid, gno] => .gtid (hb sid) (n gno)
   | ["ag"] => .anonGtid
   | ["pg", b] => .prevGtids (hb b)
